@@ -457,6 +457,13 @@ fn bodies(target: &str) -> Vec<Vec<u8>> {
             v.push(b"\xff\xfe".to_vec());
         }
         "T2" => {
+            // bodies larger than the transports' internal buffers, and one above the frameworks'
+            // default 2 MiB limit (a framework-level 413 at default configuration)
+            for n in [40_000usize, 1_100_000] {
+                let items = vec!["7"; n].join(",");
+                s(&format!("{{\"kind\":\"push\",\"items\":[{items}]}}"));
+                s(&format!("{{\"kind\":\"push\",\"items\":[{items},300]}}"));
+            }
             for x in [
                 r#"{"kind":"ping"}"#,
                 r#"{"kind":"Ping"}"#,
@@ -549,7 +556,12 @@ fn run_target<T: Deserr<E> + std::fmt::Debug + 'static, E: Prescribed>(name: &st
                 continue;
             }
             ACTIX_LIMIT.with(|c| c.set(limit));
-            let scheds = schedules(&body, max_chunks, all_cuts);
+            let big = body.len() > 30_000;
+            if big && (limit.is_some() || !(ct == Some("application/json") || ct == Some("text/plain"))) {
+                continue;
+            }
+            // large bodies: ≤ 2 chunks at the six principal cut points (the cost is in copying)
+            let scheds = if big { schedules(&body, 2, false) } else { schedules(&body, max_chunks, all_cuts) };
             let mut states = 0u64;
             let mut execs = 0u64;
             // the statement's right-hand side, under the unsplit schedule
@@ -595,11 +607,12 @@ fn run_target<T: Deserr<E> + std::fmt::Debug + 'static, E: Prescribed>(name: &st
                             property: "C20".into(),
                             subject: format!("{name} / {} / {}", std::any::type_name::<E>().rsplit("::").next().unwrap_or(""), m.split(':').next().unwrap_or("")),
                             message: format!(
-                                "{m}\n  body: {:?}\n  content-type: {ct:?}  actix JSON limit: {limit:?}\n  delivery schedule: {}",
-                                String::from_utf8_lossy(&body),
-                                describe(steps)
+                                "{m}\n  body ({} bytes): {:?}\n  content-type: {ct:?}  actix JSON limit: {limit:?}\n  delivery schedule: {}",
+                                body.len(),
+                                String::from_utf8_lossy(&body[..body.len().min(300)]),
+                                describe(steps).chars().take(600).collect::<String>()
                             ),
-                            replay: json!({"kind": "c20", "target": name, "body_bytes": body, "content_type": ct, "actix_json_limit": limit, "schedule": describe(steps)}),
+                            replay: json!({"kind": "c20", "target": name, "body_len": body.len(), "body_prefix": String::from_utf8_lossy(&body[..body.len().min(2000)]), "content_type": ct, "actix_json_limit": limit, "schedule": describe(steps).chars().take(2000).collect::<String>()}),
                         });
                     }
                 }
@@ -718,7 +731,7 @@ fn main() {
     rec.set_extra("content_types", json!(CONTENT_TYPES.iter().map(|c| format!("{c:?}")).collect::<Vec<_>>()));
     let code = rec.finish(
         "model_checking",
-        "states = (target type ∈ {struct with deny_unknown_fields, tagged enum with Vec and defaulted Option, struct with default and nested Option<struct>}, request body from a grammar of valid / ill-typed at each position / scalar of every kind at the root / syntactically broken / non-UTF-8 documents, content type ∈ 6 values incl. absent and wrong); transitions = delivery schedules of the body: every split into ≤ 3 chunks (quick: cut points {1,2,L/3,L/2,L-2,L-1}; thorough: all cut points) × a Pending before every subset of the chunks and before the end, plus transport failures (two framework-level error kinds) at the start, mid-body and after the body; actix additionally with a 16-byte JSON limit (framework rejection with a non-400 status). Every schedule drives the real AwebJson and AxumJson extractor futures by hand (no runtime, no-op waker, 10 000-poll horizon). Oracle (self-relative): equals the framework's own Json<serde_json::Value> extractor on an identical request followed by deserr::deserialize (same value; on deserr failure the rejection carries exactly the deserr error — for JsonError status 400 with the message as body, for a user-defined keep-going error type its own 422 rendering; for axum AxumJsonRejection::DeserrError with that error; framework rejections unchanged in status and body); independent of the schedule. Query parameters: every query string of ≤ 2 pairs over 4 keys × 8 values (incl. repeated keys, empty values, %-escapes, a broken escape) and ≤ 3 pairs over a reduced alphabet, through from_query and FromRequest, against Query<serde_json::Value> + deserialize.",
+        "states = (target type ∈ {struct with deny_unknown_fields, tagged enum with Vec and defaulted Option, struct with default and nested Option<struct>}, request body from a grammar of valid / ill-typed at each position / scalar of every kind at the root / syntactically broken / non-UTF-8 documents, bodies of 80 KB and 2.2 MB (above the frameworks' default limit), content type ∈ 6 values incl. absent and wrong); transitions = delivery schedules of the body: every split into ≤ 3 chunks (quick: cut points {1,2,L/3,L/2,L-2,L-1}; thorough: all cut points) × a Pending before every subset of the chunks and before the end, plus transport failures (two framework-level error kinds) at the start, mid-body and after the body; actix additionally with a 16-byte JSON limit (framework rejection with a non-400 status). Every schedule drives the real AwebJson and AxumJson extractor futures by hand (no runtime, no-op waker, 10 000-poll horizon). Oracle (self-relative): equals the framework's own Json<serde_json::Value> extractor on an identical request followed by deserr::deserialize (same value; on deserr failure the rejection carries exactly the deserr error — for JsonError status 400 with the message as body, for a user-defined keep-going error type its own 422 rendering; for axum AxumJsonRejection::DeserrError with that error; framework rejections unchanged in status and body); independent of the schedule. Query parameters: every query string of ≤ 2 pairs over 4 keys × 8 values (incl. repeated keys, empty values, %-escapes, a broken escape) and ≤ 3 pairs over a reduced alphabet, through from_query and FromRequest, against Query<serde_json::Value> + deserialize.",
         &[
             "the frameworks' own extractors are the reference for framework-level behaviour, as the statement says",
             "bodies come from a finite grammar; body size limits of the frameworks are not exercised",
